@@ -52,6 +52,18 @@ TEXTS = {
                 "by correspondence and by evaluating spec_C19 on the crate's observations.",
         "design_ref": "DESIGN.md §4 C19", "note": NOTE_COMMON, "technique": TECH,
     },
+    "C05": {
+        "text": "Theorems (Properties/C05.v, about the Gallina transcription, all sizes): Matrix::rows / cols (range slicing, skip + step_by) are "
+                "exactly row i = data[i*c+j], column j = data[i*c+j]; SimilarityCombiner::calculate (binary32 instance) equals the documented "
+                "funSimAvg / funSimMax / BMA formula over those rows and columns for every well-formed matrix, square or not, and 0 when empty; "
+                "GroupSimilarity builds the |A| x |B| row-major matrix; the caching adaptor is transparent for every similarity and every "
+                "reachable cache state (invariant proof over the query sequence); with a symmetric similarity the result is order-independent "
+                "in every number structure with commutative + and max. Tied to the crate bit for bit (Flocq binary32) on generated matrices, "
+                "set pairs, asymmetric table-driven similarities and cached query sequences, incl. the log of inner similarity calls.",
+        "design_ref": "DESIGN.md §4 C05",
+        "note": NOTE_COMMON + "Axioms: the four standard-library axioms behind Coq Reals (via Flocq's binary32 definitions). Commutativity of binary32 + is a hypothesis of the symmetry theorem (not proved for Flocq here); the check compares (A,B) with (B,A) bit for bit instead.",
+        "technique": TECH,
+    },
     "C07": {
         "text": "Theorems (Properties/C07.v): big-endian u32 round trip, name cut (bounded by the limit and by the name, identity when it fits, "
                 "limit fits the one-byte field; limits regenerated from the source), writer header accepted by the reader. PARTIAL: the "
